@@ -1,57 +1,297 @@
-"""C02 — cross-validation integrity: real mokapot.brew (recording scaler + transparent estimator)
-against Model/Brew.v (split, row->model map, training sets, routing, calibration)."""
+"""C02 — cross-validation integrity: real mokapot.read_pin + brew (recording scaler + transparent estimator)
+against Model/Brew.v (split, row->model map, training sets, routing, calibration).
+
+White-box review (reviews/C02.md): the spectrum hashes the model works on are computed by the harness from the file it
+wrote (not taken from the implementation's spectra_dataframe), the property oracle is part of the verdict of every run
+that returns, runs that stop with an error still have their recorded training sets checked, and the generator varies
+column order / names / key-column sets / containers / rng kinds / directories / schedules / reader chunking / caps at
+the boundaries, feeds the returned models back in, and calls make_train_sets above its 5,000,000-row block size."""
+import atexit
+import collections
+import os
+import shutil
+import tempfile
+import zlib
 from fractions import Fraction
+from pathlib import Path
 
 from .. import lib, brewlib
 from ..lib import Toks, call_impl
 
 PROP = "C02"
-RULE = ("generated PSM tables (20-400 rows, spectra with 1-6 PSMs, spectrum keys of 1-4 columns, 1-3 jointly modelled "
-        "files, tsv/Parquet) through the real read_pin + brew with folds 2-6 and 10-13, subset_max_train absent/small/large, "
-        "max_workers 1-8, prediction/train-read chunk sizes from 1 row to larger than the file, several seeds; "
-        "observed per fold model: training row ids (scaler.fit_transform), scored row ids (scaler.transform), "
-        "model.fold, returned scores; compared with the extracted model's fold partition, complements / sub-sampling "
-        "plan, row->model map and calibrated scores. distinct = distinct case; non-trivial = some spectrum has >= 2 PSMs")
+RULE = ("generated PSM tables (2-400 rows, spectra of 1-6 PSMs and, in a sixth of the tables, of up to a third of a fold; spectrum "
+        "keys = ScanNr plus every subset of filename / ret_time / ExpMass under default, other-case and caller-given column names; "
+        "a CalcMass column that differs inside a spectrum; metadata columns in any position, another column order in every "
+        "jointly modelled file; small / >= 2^53 / negative scan numbers; file names with blanks and non-ASCII letters; 1-5 jointly "
+        "modelled files, equal-sized or one tiny; .pin / .tab / unknown-suffix tsv and Parquet with several row-group sizes) "
+        "through the real read_pin (1-4 workers, column- and row-chunked) + brew with folds 2-6 and 10-13, datasets given as "
+        "list / tuple / single object, rng as int / Generator / None, subset_max_train absent / small / large / within +-2 of a "
+        "fold's training-set size / smaller than the number of files, max_workers 1-8 with perturbed thread timing, prediction "
+        "/ train-read chunk sizes from 1 row to larger than the file, fresh directory or one directory re-used by consecutive "
+        "cases, several seeds; a quarter of the successful runs feed the returned models back into brew on the re-read files. "
+        "observed per fold model: training row ids (scaler.fit_transform), scored row ids (scaler.transform), model.fold, "
+        "returned scores; compared with the extracted model's fold partition (hashes recomputed from the written file), "
+        "complements / sub-sampling plan, row->model map and calibrated scores; the property oracle (k fold models, every row "
+        "scored once, one fold per spectrum, training set inside the other folds and sharing no spectrum with the held-out "
+        "fold) is evaluated on every run that returns and is part of the verdict; runs that raise after fitting still have "
+        "every recorded training set checked against the fold it scored. extra: make_train_sets on 5,000,000+ rows. "
+        "distinct = distinct case; non-trivial = brew returned, every fold model trained and scored rows, some spectrum has "
+        ">= 2 PSMs, and the training sets were compared (recorded from the run, not from the case)")
 ASSUMPTIONS = [
-    "crc32(str(tuple(key[:2]))) is recomputed by the harness (a harmless change of the hash function breaks this correspondence)",
+    "crc32(str(tuple(key[:2]))) is recomputed by the harness from pandas' own reading of the file it wrote (a harmless change of the hash function breaks this correspondence)",
     "rng.choice sub-sampling and rng.shuffle are oracles (contracts: subset of the complement without duplicates, of the planned size)",
     "scores: integer-valued features through a transparent estimator, so (s-t)/(t-d) is one correctly rounded division; compared exactly",
+    "a feature column must not be called 'fold' (known finding predict:feature-column-named-fold: _predict overwrites and drops it)",
+    "the block size of make_train_sets (5,000,000 rows) is a local constant: it is exercised by calling make_train_sets directly, not through brew",
 ]
-TRUSTED_EXTRA = ["scikit-learn clone/deepcopy of the recording scaler and estimator", "joblib thread scheduling (any completion order)"]
+TRUSTED_EXTRA = ["scikit-learn clone/deepcopy of the recording scaler and estimator", "joblib thread scheduling (any completion order)",
+                 "pandas.read_csv / read_parquet of the generated file (reference spectrum keys)"]
+
+KEY_FOLD_NAME = "predict:feature-column-named-fold"
+KEY_ONECOL = "split:one-column-spectrum-key"
+
+_NONTRIVIAL = {}
+_MODEL_ERR = {}          # case key -> error the extracted model stops with on that input (degenerate inputs)
+_OUTCOMES = collections.Counter()
+_SEEN = collections.Counter()
+
+
+def _ckey(c):
+    return lib.stable_hash({k: v for k, v in c.items() if k != "tags"})
 
 
 # ----------------------------------------------------------------------------- generation
+# canonical order of the spectrum columns in read_percolator: filename, scan, ret_time, expmass
+_ROLES = ("filename", "scan", "ret_time", "expmass")
+_NAME_STYLES = {
+    "default": {"specid": "SpecId", "label": "Label", "scan": "ScanNr", "filename": "filename", "ret_time": "ret_time",
+                "expmass": "ExpMass", "calcmass": "CalcMass", "peptide": "Peptide", "proteins": "Proteins"},
+    "lower": {"specid": "specid", "label": "label", "scan": "scannr", "filename": "filename", "ret_time": "ret_time",
+              "expmass": "expmass", "calcmass": "calcmass", "peptide": "peptide", "proteins": "proteins"},
+    "upper": {"specid": "SPECID", "label": "LABEL", "scan": "SCANNR", "filename": "FileName", "ret_time": "RET_TIME",
+              "expmass": "EXPMASS", "calcmass": "CALCMASS", "peptide": "PEPTIDE", "proteins": "PROTEINS"},
+    # names only the caller knows: passed to read_pin as filename_column= / rt_column= / expmass_column= / calcmass_column=
+    "custom": {"specid": "SpecId", "label": "Label", "scan": "ScanNr", "filename": "RawFile", "ret_time": "RT",
+               "expmass": "ObsMass", "calcmass": "TheoMass", "peptide": "Peptide", "proteins": "Proteins"},
+}
+_KEYSETS = [(), ("expmass",), ("filename", "expmass"), ("filename", "ret_time", "expmass"),
+            ("filename",), ("ret_time",), ("filename", "ret_time"), ("ret_time", "expmass")]
+_FILENAMES = [["run0.mzML", "run1.mzML"], ["run 0.mzML", "run 1 b.mzML", "rün 2.mzML"], ["a.raw"],
+              ["run1.mzML", "run11.mzML", "run1.mzML2"]]
+
+
+def gen_table(rng, n, keyset, file_idx, style="default", mult=(1, 6), label_enc="pm1", quality=0.85, nfeat=3, scan_kind="small",
+              calcmass=False, fold_feature=False, order=None, feat_order=None, distinct_scans=False):
+    """one PSM table; `keyset` = the optional spectrum columns present; returns the brewlib file dict + key_names (names of
+    the spectrum columns in mokapot's canonical order) + read_kw (the keyword arguments read_pin needs)"""
+    nm = _NAME_STYLES[style]
+    fnames = rng.choice(_FILENAMES)
+    rows = []
+    while len(rows) < n:
+        m = rng.randint(*mult)
+        scan = len(rows) + 1 if distinct_scans else rng.randint(1, max(3, n // 2))
+        if scan_kind == "huge":
+            scan = 2 ** 53 + scan               # neighbours collapse when the key is all-numeric (float64)
+        elif scan_kind == "signed":
+            scan = scan - max(3, n // 2) // 2   # zero and negative numbers
+        spec = (scan, rng.choice(fnames), rng.randint(0, 40) * 0.5, 500 + rng.randint(0, 30) * 0.25)
+        for _ in range(m):
+            if len(rows) < n:
+                rows.append(spec)
+    rng.shuffle(rows)
+    tg = [rng.random() < 0.55 for _ in range(n)]
+    if n >= 2 and all(tg):
+        tg[rng.randrange(n)] = False
+    if n >= 2 and not any(tg):
+        tg[rng.randrange(n)] = True
+    meta = {}
+    meta[nm["specid"]] = ["f%d_psm%d" % (file_idx, i) for i in range(n)]
+    if label_enc == "pm1":
+        meta[nm["label"]] = [1 if t else -1 for t in tg]
+    elif label_enc == "01":
+        meta[nm["label"]] = [1 if t else 0 for t in tg]
+    else:
+        meta[nm["label"]] = [bool(t) for t in tg]
+    meta[nm["scan"]] = [r[0] for r in rows]
+    if "filename" in keyset:
+        meta[nm["filename"]] = [r[1] for r in rows]
+    if "ret_time" in keyset:
+        meta[nm["ret_time"]] = [r[2] for r in rows]
+    if "expmass" in keyset:
+        meta[nm["expmass"]] = [r[3] for r in rows]
+    if calcmass:
+        # the theoretical mass belongs to the peptide, not to the spectrum: it differs between the PSMs of one spectrum
+        meta[nm["calcmass"]] = [400 + rng.randint(0, 4000) * 0.125 for _ in range(n)]
+    npep = max(2, n // 3)
+    meta[nm["peptide"]] = ["K.PEP%dK.A" % rng.randint(0, npep) for _ in range(n)]
+    meta[nm["proteins"]] = ["prot%d" % rng.randint(0, 5) for _ in range(n)]
+    feats = collections.OrderedDict()
+    feats["rid"] = [file_idx * 100000 + i for i in range(n)]
+    for j in range(nfeat):
+        vals = []
+        for i in range(n):
+            good = tg[i] and rng.random() < quality
+            vals.append(rng.randint(40, 100) if good else rng.randint(0, 60))
+        feats["fold" if (fold_feature and j == nfeat - 1) else "feat%d" % j] = vals
+    fnames_f = list(feats)
+    if feat_order == "permuted":          # only for the 2nd.. file of a case: the fold models take the order of file 0
+        rng.shuffle(fnames_f)
+    mnames = list(meta)
+    if order == "meta-last":
+        cols = fnames_f + mnames
+    elif order == "interleaved":
+        rng.shuffle(mnames)
+        cols = list(fnames_f)
+        for x in mnames:
+            cols.insert(rng.randint(0, len(cols)), x)
+        # rid stays the first feature column of the first file (the recording scaler reads column 0)
+        if feat_order != "permuted":
+            pos = [cols.index(x) for x in fnames_f]
+            for p, x in zip(sorted(pos), fnames_f):
+                cols[p] = x
+    elif order == "meta-shuffled":
+        rng.shuffle(mnames)
+        cols = mnames + fnames_f
+    else:
+        cols = [nm["specid"], nm["label"], nm["scan"]] + [x for x in mnames if x not in (nm["specid"], nm["label"], nm["scan"],
+                                                                                     nm["peptide"], nm["proteins"])] \
+            + fnames_f + [nm["peptide"], nm["proteins"]]
+    data = dict(meta)
+    data.update(feats)
+    key_names = [nm[r] for r in _ROLES if r == "scan" or r in keyset]
+    read_kw = {}
+    if style == "custom":
+        if "filename" in keyset:
+            read_kw["filename_column"] = nm["filename"]
+        if "ret_time" in keyset:
+            read_kw["rt_column"] = nm["ret_time"]
+        if "expmass" in keyset:
+            read_kw["expmass_column"] = nm["expmass"]
+        if calcmass:
+            read_kw["calcmass_column"] = nm["calcmass"]
+    return {"columns": cols, "data": {c: data[c] for c in cols}, "targets": tg, "key_names": key_names, "read_kw": read_kw}
+
+
+def _brew_case(rng, ctx, idx):
+    thorough = ctx.thorough
+    nfiles = rng.choice([1, 1, 1, 2, 2, 3, 3, 4, 5])
+    keyset = rng.choice(_KEYSETS + [()])      # the scan number alone twice as often: the only key shorter than the two hashed columns
+    folds = rng.choice([2, 3, 4, 5, 6, 2, 3, 4, 5, 6, 10, 11, 12, 13])     # >= 10: fold numbers of two digits
+    style = rng.choice(["default", "default", "lower", "upper", "custom"])
+    calcmass = rng.random() < 0.5
+    scan_kind = rng.choice(["small", "small", "small", "huge", "signed"])
+    big_groups = rng.random() < 0.17
+    size_mode = rng.choice(["random", "random", "random", "equal", "equal", "one-tiny"]) if nfiles > 1 else "random"
+    lo = 20 if folds < 10 else 130
+    hi = 400 if thorough else (160 if folds < 10 else 200)
+    n0 = rng.randint(lo, hi)
+    order0 = rng.choice(["classic", "classic", "meta-last", "interleaved", "meta-shuffled"])
+    files = []
+    for j in range(nfiles):
+        if size_mode == "equal":
+            n = n0
+        elif size_mode == "one-tiny" and j == nfiles - 1:
+            n = rng.randint(folds, 4 * folds)       # a jointly modelled file with a few PSMs per fold
+        else:
+            n = rng.randint(lo, hi)
+        tiny = size_mode == "one-tiny" and j == nfiles - 1
+        if tiny:
+            mult = (1, 1)
+        elif big_groups:
+            mult = (1, max(2, n // folds // 3))
+        else:
+            mult = (1, rng.choice([1, 3, 6]))
+        order = order0 if j == 0 or rng.random() < 0.4 else rng.choice(["classic", "meta-last", "interleaved", "meta-shuffled"])
+        files.append(gen_table(rng, n, keyset, j, style=style, mult=mult, label_enc=rng.choice(["pm1", "01", "bool"]),
+                               scan_kind=scan_kind, calcmass=calcmass, order=order, distinct_scans=tiny,
+                               feat_order="permuted" if (j > 0 and rng.random() < 0.5) else None))
+    sizes = [len(f["targets"]) for f in files]
+    ntot = sum(sizes)
+    nmax = max(sizes)
+    train_nominal = ntot - ntot // folds
+    cap_kind = rng.choice(["none", "none", "none", "none", "quarter", "half", "double", "double", "boundary", "boundary", "boundary", "tiny"])
+    if nfiles > 1 and cap_kind in ("quarter", "half", "boundary") and (size_mode != "equal" or cap_kind == "boundary") and rng.random() < 0.7:
+        # the per-file share of the cap then usually exceeds what the smallest file has outside a fold: brew stops with the
+        # ValueError of rng.choice (modelled: bw_subset_plan = Err EValue) — kept, but not as the common case
+        cap_kind = rng.choice(["none", "double"])
+    cap = {"none": None, "quarter": max(4, ntot // 4), "half": max(6, ntot // 2), "double": ntot * 2,
+           "boundary": max(1, train_nominal + rng.randint(-2, 2)),
+           "tiny": rng.choice([max(1, nfiles - 1), nfiles, 2 * nfiles + 1])}[cap_kind]
+    chunks = {}
+    # chunks of one to three rows on large inputs dominate the running time (one thread pool per chunk and fold)
+    tiny_chunks = ([1, 2, 3] if ntot <= 120 else []) + ([7] if ntot <= 300 else []) + [max(1, nmax // 5)]
+    if rng.random() < 0.6:
+        chunks["predict"] = rng.choice(tiny_chunks + [nmax - 1, nmax, nmax + 1, nmax // 2, nmax // 2 + 1, nmax // 3 + 1])
+    if rng.random() < 0.6:
+        chunks["trainread"] = rng.choice(tiny_chunks + [nmax - 1, nmax, nmax + 1, nmax // 2 + 1])
+    if rng.random() < 0.5:
+        # read_percolator: rows per pass over the file while the spectra table is assembled
+        chunks["rowscan"] = rng.choice([2, 3, 7, nmax // 2, nmax - 1, nmax, nmax + 1])
+    if rng.random() < 0.4:
+        chunks["colscan"] = rng.choice([1, 2, 3, 5])
+    chunks = {a: max(1, b) for a, b in chunks.items()}
+    fmt = rng.choice(["tsv", "tsv", "parquet"])
+    workers = rng.choice([1, 1, 2, 4, 8])
+    read_workers = rng.choice([1, 1, 2, 4])
+    container = rng.choice(["list", "list", "tuple"]) if nfiles > 1 else rng.choice(["list", "single", "single", "tuple"])
+    rng_kind = rng.choice(["int", "int", "generator", "none"])
+    case = {"fn": "brew", "files": files, "folds": folds, "seed": rng.randint(0, 10 ** 6),
+            "test_fdr": rng.choice(["0.5", "0.5", "0.5", "1.0", "1.0", "1.0", "1.0", "0.25", "0.25", "0.1"] if folds < 10 else ["0.5", "1.0", "1.0"]),
+            "workers": workers,
+            "subset_max_train": cap, "chunks": chunks, "fmt": fmt,
+            "suffix": rng.choice([".pin", ".pin", ".tab", ".tsv"]) if fmt == "tsv" else ".parquet",
+            "row_group": rng.choice([None, 1, 3, 17]) if fmt == "parquet" else None,
+            "est_mode": rng.choice(["decision", "decision", "decision", "proba"]),
+            "read_workers": read_workers, "container": container, "rng_kind": rng_kind,
+            "sleep_seed": rng.randint(1, 10 ** 6) if (workers > 1 or read_workers > 1) and rng.random() < 0.7 else None,
+            "workdir": rng.choice(["shared", "shared", "fresh"]),
+            "rescore": ({"workers": rng.choice([1, 2, 4]), "seed": rng.randint(0, 10 ** 6)} if rng.random() < 0.25 else None)}
+    case["tags"] = ["brew", f"files={nfiles}", "key=" + "+".join(("scan",) + keyset), f"folds={folds}",
+                    "cap=" + cap_kind, fmt + ("" if fmt == "parquet" else case["suffix"]),
+                    "chunks=" + ",".join(sorted(chunks)) if chunks else "chunks=default",
+                    "names=" + style, "order=" + order0, "scan=" + scan_kind, "psms=" + container, "rng=" + rng_kind,
+                    "dir=" + case["workdir"], "sizes=" + size_mode, "workers=%d" % workers, "readworkers=%d" % read_workers]
+    if calcmass:
+        case["tags"].append("calcmass-column")
+    if big_groups:
+        case["tags"].append("big-spectra")
+    if case["sleep_seed"]:
+        case["tags"].append("perturbed-timing")
+    if case["rescore"]:
+        case["tags"].append("rescore-requested")
+    if nfiles > 1 and len({tuple(f["columns"]) for f in files}) > 1:
+        case["tags"].append("files-differ-in-column-order")
+    return case
+
+
 def gen(ctx):
     cases = []
     rng = ctx.sub("brew")
-    n_cases = 260 if ctx.thorough else 56
+    n_cases = 330 if ctx.thorough else 84
     for k in range(n_cases):
-        nfiles = rng.choice([1, 1, 1, 2, 3])
-        nkey = rng.choice([1, 2, 2, 3, 4])
-        folds = rng.choice([2, 3, 4, 5, 6, 2, 3, 4, 5, 6, 10, 11, 12, 13])     # >= 10: fold numbers of two digits
-        files = []
-        for j in range(nfiles):
-            n = rng.randint(20 if folds < 10 else 90, 400 if ctx.thorough else 160)
-            files.append(brewlib.gen_file(rng, n, nkey, file_idx=j, mult=(1, rng.choice([1, 3, 6])),
-                                          label_enc=rng.choice(["pm1", "01", "bool"])))
-        ntot = sum(len(f["targets"]) for f in files)
-        cap = rng.choice([None, None, max(4, ntot // 4), max(6, ntot // 2), ntot * 2])
-        nmax = max(len(f["targets"]) for f in files)
-        chunks = {}
-        if rng.random() < 0.6:
-            chunks["predict"] = rng.choice([1, 2, 3, 7, nmax - 1, nmax, nmax + 1, nmax // 2, nmax // 2 + 1, nmax // 3 + 1])
-        if rng.random() < 0.6:
-            chunks["trainread"] = rng.choice([1, 2, 3, 7, nmax - 1, nmax, nmax + 1])
-        chunks = {a: max(1, b) for a, b in chunks.items()}
-        fmt = rng.choice(["tsv", "tsv", "parquet"])
-        cases.append({"fn": "brew", "files": files, "folds": folds, "seed": rng.randint(0, 10 ** 6),
-                      "test_fdr": rng.choice(["0.5", "0.5", "0.25", "1.0", "0.1"]), "workers": rng.choice([1, 1, 2, 4, 8]),
-                      "subset_max_train": cap, "chunks": chunks, "fmt": fmt,
-                      "row_group": rng.choice([None, 1, 3, 17]) if fmt == "parquet" else None,
-                      "est_mode": rng.choice(["decision", "decision", "decision", "proba"]),
-                      "tags": ["brew", f"files={nfiles}", f"keycols={nkey}", f"folds={folds}",
-                               "cap" if cap else "nocap", fmt, "chunks=" + ",".join(sorted(chunks)) if chunks else "chunks=default"]})
+        cases.append(_brew_case(rng, ctx, k))
+    # the same path, other content: pairs of one-file cases written to the shared directory under one name, with the same
+    # fold count, so that anything remembered per path (or per path and fold count) from the first is wrong for the second
+    rng = ctx.sub("same-path")
+    for k in range(10 if ctx.thorough else 3):
+        folds = rng.choice([2, 3, 4])
+        keyset = rng.choice(_KEYSETS)
+        n = rng.randint(30, 90)          # the same number of rows: a stale split is then wrong without an IndexError
+        for rep in range(2):
+            f = gen_table(rng, n, keyset, 0, mult=(1, 4))
+            cases.append({"fn": "brew", "files": [f], "folds": folds, "seed": k, "test_fdr": "1.0", "workers": 1,
+                          "subset_max_train": None, "chunks": {}, "fmt": "tsv", "suffix": ".pin", "row_group": None,
+                          "est_mode": "decision", "workdir": "shared", "container": "list", "rng_kind": "int",
+                          "tags": ["brew", "same-path-pair", "dir=shared", f"folds={folds}", "files=1"]})
+    # a feature column whose name is the one _predict uses internally
+    rng = ctx.sub("fold-name")
+    for k in range(3 if ctx.thorough else 1):
+        f = gen_table(rng, rng.randint(40, 80), ("expmass",), 0, fold_feature=True)
+        cases.append({"fn": "brew", "files": [f], "folds": 3, "seed": k, "test_fdr": "1.0", "workers": 1, "subset_max_train": None,
+                      "chunks": {}, "fmt": "tsv", "suffix": ".pin", "row_group": None, "est_mode": "decision", "workdir": "fresh",
+                      "tags": ["brew", "feature-named-fold", "finding:" + KEY_FOLD_NAME]})
     # degenerate: fewer distinct spectra than folds / one big spectrum
+    rng = ctx.sub("degenerate")
     for k in range(6 if not ctx.thorough else 20):
         n = rng.randint(6, 14)
         f = brewlib.gen_file(rng, n, 2, file_idx=0, mult=(n, n))
@@ -61,17 +301,143 @@ def gen(ctx):
     return cases
 
 
+# ----------------------------------------------------------------------------- running the real code
+_SHARED = [None]
+
+
+def _shared_dir():
+    if _SHARED[0] is None:
+        _SHARED[0] = tempfile.mkdtemp(prefix="c02_shared_", dir=os.environ.get("VERIF_TMP", "/tmp"))
+        atexit.register(shutil.rmtree, _SHARED[0], True)
+    return _SHARED[0]
+
+
+def _key_names(f):
+    if "key_names" in f:
+        return list(f["key_names"])
+    return [x for x in ("filename", "ScanNr", "ret_time", "ExpMass") if x in f["data"]]
+
+
+def _write(f, d, name, fmt, suffix, row_group):
+    import pandas as pd
+    df = pd.DataFrame(f["data"], columns=f["columns"])
+    if fmt == "parquet":
+        p = Path(d) / (name + ".parquet")
+        df.to_parquet(p, index=False, row_group_size=row_group or max(1, len(df)))
+    else:
+        p = Path(d) / (name + (suffix or ".pin"))
+        df.to_csv(p, sep="\t", index=False)
+    return p
+
+
+def _reference_keys(path, key_names):
+    """the hashes _split must work on, from pandas' own reading of the whole file (no mokapot code involved)"""
+    import pandas as pd
+    df = pd.read_parquet(path) if path.suffix == ".parquet" else pd.read_csv(path, sep="\t")
+    vals = df[key_names].values
+    return [zlib.crc32(str(tuple(x[:2])).encode()) for x in vals]
+
+
+def _snapshot(models):
+    """training rows and scored rows of the given fold models, from the recording scaler's log"""
+    fit_by_token = dict(brewlib.LOG["fit"])
+    tr = {}
+    for tok, ids in brewlib.LOG["transform"]:
+        tr.setdefault(tok, []).extend(ids)
+    toks = [getattr(m.scaler, "token_", None) for m in models]
+    return [sorted(fit_by_token.get(t, [])) for t in toks], [sorted(tr.get(t, [])) for t in toks]
+
+
+def run_impl(case):
+    """read_pin + brew of the real code on the case; returns the observation dict"""
+    import numpy as np
+    import mokapot
+    from mokapot.model import Model
+    RecScaler, Transparent = brewlib.make_classes()
+    shared = case.get("workdir") == "shared"
+    d = _shared_dir() if shared else tempfile.mkdtemp(prefix="brew_", dir=os.environ.get("VERIF_TMP", "/tmp"))
+    try:
+        paths = [_write(f, d, "file%d" % i, case.get("fmt", "tsv"), case.get("suffix"), case.get("row_group"))
+                 for i, f in enumerate(case["files"])]
+        ref_keys = [_reference_keys(p, _key_names(f)) for p, f in zip(paths, case["files"])]
+        read_kw = dict(case["files"][0].get("read_kw") or {})
+        ch = case.get("chunks", {})
+        with brewlib.Chunking(**ch), brewlib.Sleeps(case.get("sleep_seed")):
+            dss = mokapot.read_pin(paths if len(paths) > 1 else paths[0], max_workers=case.get("read_workers", 1), **read_kw)
+            keys = [brewlib.spectrum_keys(ds) for ds in dss]
+            spec_cols = [list(ds.spectrum_columns) for ds in dss]
+            features = [list(ds.feature_columns) for ds in dss]
+            brewlib.reset_log()
+            est = Transparent(mode=case.get("est_mode", "decision"), learn=True, kind="col")
+            model = Model(est, scaler=RecScaler(), train_fdr=1.0, max_iter=1, override=True, rng=case["seed"])
+            kind = case.get("rng_kind", "int")
+            rng_arg = case["seed"] if kind == "int" else (np.random.default_rng(case["seed"]) if kind == "generator" else None)
+            cont = case.get("container", "list")
+            psms_arg = dss[0] if (cont == "single" and len(dss) == 1) else (tuple(dss) if cont == "tuple" else list(dss))
+            base = {"keys": keys, "ref_keys": ref_keys, "spectrum_columns": spec_cols, "features": features}
+            try:
+                _, models, scores, descs = mokapot.brew(
+                    psms_arg, model, test_fdr=float(case["test_fdr"]), folds=case["folds"],
+                    max_workers=case.get("workers", 1), rng=rng_arg, subset_max_train=case.get("subset_max_train"))
+            except BaseException as e:   # noqa
+                if isinstance(e, (KeyboardInterrupt, SystemExit, MemoryError)):
+                    raise
+                # what was fitted and scored before brew raised is known all the same
+                tr = {}
+                for tok, ids in brewlib.LOG["transform"]:
+                    tr.setdefault(tok, []).extend(ids)
+                base.update({"error": lib.err_kind(e), "message": str(e)[:200],
+                             "est_fits": [(sorted(x[0]), x[2]) for x in brewlib.LOG["est_fit"] if len(x) > 2],
+                             "fits": [(tok, sorted(ids), sorted(tr.get(tok, []))) for tok, ids in brewlib.LOG["fit"]]})
+                return base
+            train_ids, scored_ids = _snapshot(models)
+            obs = dict(base)
+            obs.update({
+                "error": None,
+                "model_folds": [m.fold for m in models],
+                "trained": [bool(m.is_trained) for m in models],
+                "cols": [getattr(m.estimator, "col_", None) for m in models],
+                "train_ids": train_ids, "scored_ids": scored_ids,
+                "scores": [[Fraction(float(v)) if np.isfinite(v) else None for v in np.asarray(s).ravel()] for s in scores],
+                "n_scores": [int(np.asarray(s).size) for s in scores],
+                "descs": [bool(x) for x in descs],
+                "seen": None,
+                "rescore": None,
+            })
+            if case.get("rescore"):
+                # the documented second use: the trained fold models, in the order brew returned them, on the same files
+                rs = case["rescore"]
+                with brewlib._LOCK:
+                    brewlib.LOG["transform"] = []
+                try:
+                    dss2 = mokapot.read_pin(paths, max_workers=1, **read_kw)
+                    _, models2, scores2, _ = mokapot.brew(dss2, list(models), test_fdr=float(case["test_fdr"]), folds=case["folds"],
+                                                          max_workers=rs.get("workers", 1), rng=rs.get("seed", 0))
+                    _, scored2 = _snapshot(models2)
+                    obs["rescore"] = {"model_folds": [m.fold for m in models2], "scored": scored2,
+                                      "same_objects": all(a is b for a, b in zip(models, models2)) and len(models) == len(models2),
+                                      "scores": [[Fraction(float(v)) if np.isfinite(v) else None for v in np.asarray(s).ravel()]
+                                                 for s in scores2]}
+                except BaseException as e:   # noqa
+                    if isinstance(e, (KeyboardInterrupt, SystemExit, MemoryError)):
+                        raise
+                    obs["rescore"] = {"error": lib.err_kind(e), "message": str(e)[:200]}
+        return obs
+    finally:
+        if not shared:
+            shutil.rmtree(d, ignore_errors=True)
+
+
 # ----------------------------------------------------------------------------- one case
 def _gid(j, r):
     return j * 100000 + r
 
 
 def _model_side(case, obs):
-    """everything the extracted model predicts, given the oracle values recorded in obs"""
+    """everything the extracted model predicts, given the spectrum hashes of the files"""
     k = case["folds"]
-    files = case["files"]
     out = {"folds": [], "fold_of": [], "train": None, "scores": None}
-    lines = ["c02.split_train %s %s" % (lib.lst(keys), lib.z(k)) for keys in obs["keys"]]
+    lines = ["c02.split_train %s %s" % (lib.lst(keys), lib.z(k)) for keys in obs["ref_keys"]]
     res = lib.run_driver(lines)
     per_file = []
     for line in res:
@@ -99,6 +465,13 @@ def _model_side(case, obs):
     return ("ok", out)
 
 
+def _feature_name(case, obs, col):
+    feats = (obs.get("features") or [None])[0]
+    if feats:
+        return feats[col]
+    return "rid" if col == 0 else "feat%d" % (col - 1)
+
+
 def _scores_model(case, obs):
     k = case["folds"]
     thr = Fraction(case["test_fdr"])
@@ -112,8 +485,7 @@ def _scores_model(case, obs):
                 seen = obs["seen"][m]
                 raw.append([int(seen.get(_gid(j, r), 0)) for r in range(len(f["targets"]))])
                 continue
-            col = obs["cols"][m]
-            name = "rid" if col == 0 else "feat%d" % (col - 1)
+            name = _feature_name(case, obs, obs["cols"][m])
             kind = case.get("est_kind", "col")
             if kind == "const":
                 raw.append([0 for _ in f["data"][name]])
@@ -123,7 +495,7 @@ def _scores_model(case, obs):
                 raw.append([int(v) for v in f["data"][name]])
         lines.append("c02.brew_scores %s %s %s %s %s %s %s" % (
             lib.b(case.get("est_mode", "decision") == "decision"), lib.z(c), lib.z(k), lib.q(thr),
-            lib.lst(obs["keys"][j]), lib.lst(f["targets"], lib.b), lib.lst(raw, lambda r: lib.lst(r))))
+            lib.lst(obs["ref_keys"][j]), lib.lst(f["targets"], lib.b), lib.lst(raw, lambda r: lib.lst(r))))
     res = []
     for line in lib.run_driver(lines):
         t = Toks(line)
@@ -132,16 +504,92 @@ def _scores_model(case, obs):
 
 
 def run_case(case):
-    return compare(case, call_impl(brewlib.run_brew, case))
+    m, i = compare(case, call_impl(run_impl, case))
+    if m[0] == "err":
+        _MODEL_ERR[_ckey(case)] = m[1]
+    _OUTCOMES["%s / %s" % (m[1] if m[0] == "err" else m[0], (str(i[1])[:60] if i[0] == "err" else i[0]))] += 1
+    return m, i
+
+
+def _spectra(case):
+    """row id -> spectrum identity (full key of the row's own file), from the generated table"""
+    spec = {}
+    for j, f in enumerate(case["files"]):
+        cols = _key_names(f)
+        for r in range(len(f["targets"])):
+            spec[_gid(j, r)] = (j,) + tuple(f["data"][x][r] for x in cols)
+    return spec
+
+
+def _fits_message(case, ms, obs):
+    """brew raised: every training set the recording scaler saw must still lie inside the complement of one fold — the fold
+    whose rows that model went on to score, when it scored any — in the planned size, and share no spectrum with those rows"""
+    fits = obs.get("fits") or []
+    if not fits:
+        return None
+    if ms[0] != "ok":
+        return None
+    m = ms[1]
+    k = case["folds"]
+    spec = _spectra(case)
+    fold_of_row = {g: f for f in range(k) for g in m["fold_rows"][f]}
+    if len(fits) > k:
+        return f"{len(fits)} training sets for {k} folds"
+    for tok, ids, scored in fits:
+        if len(set(ids)) != len(ids):
+            return "a training set holds a row twice"
+        if any(g not in fold_of_row for g in ids):
+            return "a training set holds a row that is in no file"
+        sf = sorted({fold_of_row.get(g, -1) for g in scored})
+        if len(sf) > 1:
+            return f"one fold model scored rows of the folds {sf}"
+        cands = sf if sf else [f for f in range(k) if set(ids) <= set(m["complements"][f])]
+        if not cands:
+            return "a training set lies in the complement of no fold"
+        ok = False
+        for f in cands:
+            comp = set(m["complements"][f])
+            if not set(ids) <= comp:
+                continue
+            plan = m["plans"][f]
+            if plan[0] != "ok":
+                continue
+            good = True
+            for j, pl in enumerate(plan[1]):
+                mine = [g for g in ids if g // 100000 == j]
+                want = len(m["complements_per_file"][f][j]) if pl is None else pl
+                good = good and len(mine) == want
+            ok = ok or good
+        if not ok:
+            return "a training set is not the planned (sub-sample of the) complement of the fold its model scores"
+        held = {spec[g] for g in scored}
+        if any(spec[g] in held for g in ids):
+            return "a training set shares a spectrum with the rows its model scored"
+    return None
+
+
+def _err(kind, fitmsg):
+    return ("err", kind if not fitmsg else "%s; %s" % (kind, fitmsg))
 
 
 def compare(case, got):
     if got[0] == "err":
         return ("unknown", "read_pin failed"), ("err", got[1])
     obs = got[1]
+    # the spectra table read_pin hands to _split: one row per PSM in file order, the key columns in canonical order
+    exp_cols = [_key_names(f) for f in case["files"]]
+    if obs["spectrum_columns"] != exp_cols:
+        return ("ok", {"spectrum_columns": exp_cols}), ("ok", {"spectrum_columns": obs["spectrum_columns"]})
+    if obs["keys"] != obs["ref_keys"]:
+        bad = [(j, r) for j, (a, b) in enumerate(zip(obs["keys"], obs["ref_keys"]))
+               for r in range(max(len(a), len(b))) if r >= len(a) or r >= len(b) or a[r] != b[r]]
+        return ("ok", {"spectra_table": "the spectrum keys of the file, row by row"}), \
+               ("ok", {"spectra_table": "differs from the file at (file, row) %s ..." % (bad[:3],), "property":
+                       "read_pin's spectra table does not hold the spectrum key of each PSM in file order"})
     ms = _model_side(case, obs)
     if obs.get("error"):
-        impl = ("err", obs["error"])
+        fitmsg = _fits_message(case, ms, obs)
+        impl = _err(obs["error"], fitmsg)
         if ms[0] == "err":
             return ms, impl
         # the split succeeded in the model: the failure must come from the plan or from calibration
@@ -153,19 +601,20 @@ def compare(case, got):
         # error (np.hstack of nothing, or the calibration error) instead of returning scores — a degenerate input; no PSM is
         # scored by a wrong model.  The kind of the error depends on the estimator interface, so only 'an error' is predicted.
         if any(len(fold) == 0 for per_file in ms[1]["folds"] for fold in per_file):
-            return ("err", "EmptyFold"), ("err", "EmptyFold")
+            return ("err", "EmptyFold"), _err("EmptyFold", fitmsg)
         # a training set without decoys (or without targets) is rejected by LinearPsmDataset: legitimate when the random
         # sub-sample of a capped training set happens to be one-class (the drawn sub-sample — an RNG oracle — was never
         # observed, so the model cannot predict it), or when the complement of a fold is one-class itself
         msg = obs.get("message", "")
-        if obs["error"] == "ValueError" and ("No decoy PSMs were detected" in msg or "No target PSMs were detected" in msg):
+        if obs["error"] == "ValueError" and ("No decoy PSMs were detected" in msg or "No target PSMs were detected" in msg
+                                             or "No PSMs were detected" in msg):
             capped = any(pl is not None for p in plans if p[0] == "ok" for pl in p[1])
             oneclass = False
             for f in range(case["folds"]):
                 tg = [case["files"][j]["targets"][r] for j in range(len(case["files"])) for r in ms[1]["complements_per_file"][f][j]]
                 oneclass = oneclass or not any(tg) or all(tg)
             if capped or oneclass:
-                return ("err", "OneClassTrainingSet"), ("err", "OneClassTrainingSet")
+                return ("err", "OneClassTrainingSet"), _err("OneClassTrainingSet", fitmsg)
         # brew raised after the fold models were fitted: with the column every fold model learned (recorded at fit time) the
         # model computes the scores and tells whether the calibration of some fold really has no accepted target
         if obs["error"] == "RuntimeError" and obs.get("est_fits") and case.get("learner") in (None, "transparent") \
@@ -195,10 +644,14 @@ def compare(case, got):
     model = {"model_folds": list(range(1, k + 1)), "scored": m["fold_rows"], "trained": [True] * k}
     # training sets
     train_ok = []
+    spec = _spectra(case)
     for f in range(k):
         plan = m["plans"][f]
         if plan[0] == "err":
             train_ok.append("plan-error-" + plan[1])
+            continue
+        if f >= len(obs["train_ids"]):
+            train_ok.append("missing")
             continue
         obs_ids = obs["train_ids"][f]
         if len(set(obs_ids)) != len(obs_ids):
@@ -212,6 +665,7 @@ def compare(case, got):
                 ok = ok and sorted(mine) == sorted(comp)
             else:
                 ok = ok and set(mine) <= comp and len(mine) == pl
+        ok = ok and all(0 <= g // 100000 < len(case["files"]) for g in obs_ids)
         train_ok.append("ok" if ok else "mismatch")
     impl["train"] = train_ok
     model["train"] = ["ok"] * k
@@ -226,7 +680,40 @@ def compare(case, got):
         impl["scores"] = "err:NonFinite"
     else:
         impl["scores"] = obs["scores"]
+    # the trained models fed back in, in the order they were returned: same routing, same scores
+    if case.get("rescore"):
+        rs = obs.get("rescore") or {}
+        model["rescore"] = {"model_folds": model["model_folds"], "scored": model["scored"], "scores": model["scores"]}
+        if rs.get("error"):
+            impl["rescore"] = "err:" + rs["error"]
+        else:
+            sc2 = rs.get("scores") or []
+            impl["rescore"] = {"model_folds": rs.get("model_folds"), "scored": rs.get("scored"),
+                               "scores": "err:NonFinite" if any(v is None for s in sc2 for v in s) else sc2}
+        _SEEN["rescored with the returned models"] += 1
+    # the property itself, on what the implementation did (independent of the extracted model)
+    model["property"] = None
+    impl["property"] = _oracle_ok(case, impl, obs["train_ids"], spec)
     impl["_obs"] = {"cols": obs["cols"], "train_sizes": [len(x) for x in obs["train_ids"]]}
+    # ---- what this run exercised (evidence only)
+    multi = len(set(spec.values())) < len(spec)
+    _NONTRIVIAL[_ckey(case)] = bool(multi and all(obs["trained"]) and len(obs["scored_ids"]) == k
+                                    and all(len(x) > 0 for x in obs["scored_ids"]) and train_ok == ["ok"] * k)
+    for f in range(k):
+        if m["plans"][f][0] == "ok":
+            total = len(m["complements"][f])
+            cap = case.get("subset_max_train")
+            if cap is not None and total == cap:
+                _SEEN["cap == size of a fold's training set"] += 1
+            if cap is not None and total == cap + 1:
+                _SEEN["cap == size of a fold's training set - 1"] += 1
+            if any(pl == 0 for pl in m["plans"][f][1] if pl is not None):
+                _SEEN["a file's share of the cap is 0 rows"] += 1
+            if any(pl is not None for pl in m["plans"][f][1]):
+                _SEEN["fold training set sub-sampled"] += 1
+    sizes = collections.Counter(spec.values())
+    if sizes and max(sizes.values()) >= 8:
+        _SEEN["a spectrum of >= 8 PSMs"] += 1
     return ("ok", model), ("ok", impl)
 
 
@@ -236,19 +723,53 @@ def same(c, m, i):
     if m[0] == "err":
         return m[1] == i[1]
     a, b = m[1], i[1]
-    return all(a[k] == b[k] for k in ("model_folds", "scored", "trained", "train", "scores"))
+    if "scored" not in a:
+        return all(k in b and a[k] == b[k] for k in a if k != "note") and "note" not in a
+    return all(k in b and a[k] == b[k] for k in ("model_folds", "scored", "trained", "train", "scores", "property")) \
+        and a.get("rescore") == b.get("rescore")
 
 
 def nontrivial(c):
-    for f in c["files"]:
-        seen = set()
-        cols = [x for x in ("filename", "ScanNr", "ret_time", "ExpMass") if x in f["data"]]
-        for r in range(len(f["targets"])):
-            key = tuple(f["data"][x][r] for x in cols)
-            if key in seen:
-                return True
-            seen.add(key)
-    return False
+    """recorded by compare(): brew returned, every fold model trained and scored rows, a spectrum with >= 2 PSMs exists and the
+    training sets were compared"""
+    return _NONTRIVIAL.get(_ckey(c), False)
+
+
+def _oracle_ok(c, o, train_ids, spec):
+    """the property on a run that returned: independent of the extracted model (the folds are the sets of rows the fold models
+    scored; spectra are the key columns of the generated table)"""
+    k = c["folds"]
+    if o["model_folds"] != list(range(1, k + 1)):
+        return f"models are not one per fold: {o['model_folds']}"
+    scored = o["scored"]
+    allrows = sorted(g for f in scored for g in f)
+    exp = sorted(spec)
+    if allrows != exp:
+        return "rows are not scored by exactly one fold model each"
+    owner = {g: f for f, rows in enumerate(scored) for g in rows}
+    byspec = {}
+    for g, s in spec.items():
+        byspec.setdefault(s, set()).add(owner[g])
+    for s, fs in byspec.items():
+        if len(fs) > 1:
+            return f"PSMs of spectrum {s} fall into different folds {sorted(fs)}"
+    if train_ids is not None:
+        for f in range(k):
+            ids = train_ids[f] if f < len(train_ids) else []
+            held = set(scored[f])
+            if any(g in held for g in ids):
+                return f"the model of fold {f + 1} was trained on PSMs it scores"
+            if any(g not in spec for g in ids):
+                return f"the model of fold {f + 1} was trained on rows that are in no input file"
+            hs = {spec[g] for g in held}
+            if any(spec[g] in hs for g in ids):
+                return f"the model of fold {f + 1} was trained on a PSM of a spectrum it scores"
+    if o.get("train") is not None and o["train"] != ["ok"] * k:
+        return f"training sets are not (a sub-sample of) the other folds: {o['train']}"
+    rs = o.get("rescore")
+    if isinstance(rs, dict) and rs.get("scored") is not None and rs["scored"] != scored:
+        return "the returned models, fed back in the returned order, score other rows than the ones of their folds"
+    return None
 
 
 def oracle(c, i):
@@ -256,39 +777,102 @@ def oracle(c, i):
     if "degenerate-few-spectra" in c.get("tags", []):
         return None
     if i[0] != "ok":
-        if i[1] in ("RuntimeError", "OneClassTrainingSet", "EmptyFold"):     # calibration: no accepted target in a fold (C11's explicit error);
+        kind = str(i[1])
+        if "; " in kind:                                            # brew raised, and a recorded training set is wrong
+            return kind.split("; ", 1)[1]
+        if kind in ("RuntimeError", "OneClassTrainingSet", "EmptyFold"):     # calibration: no accepted target in a fold (C11's explicit error);
             return None                                           # a one-class training sub-sample (see compare)
-        return f"brew failed on a valid dataset: {i[1]}"
+        if kind == _MODEL_ERR.get(_ckey(c)):
+            # the extracted model stops with the same error on this input (fewer spectra than split points: IndexError; the
+            # share of the cap of one file exceeds what that file has outside the fold: ValueError of rng.choice) — the run
+            # agrees with the model and is not the failing input the search is after
+            return None
+        return f"brew failed on a valid dataset: {kind}"
     o = i[1]
+    if o.get("property"):
+        return o["property"]
+    if "spectrum_columns" in o and "scored" not in o:
+        return f"read_pin took {o['spectrum_columns']} as the spectrum columns"
     if "scored" not in o:
         return None
-    k = c["folds"]
-    if o["model_folds"] != list(range(1, k + 1)):
-        return f"models are not one per fold: {o['model_folds']}"
-    scored = o["scored"]
-    allrows = sorted(g for f in scored for g in f)
-    exp = sorted(_gid(j, r) for j, f in enumerate(c["files"]) for r in range(len(f["targets"])))
-    if allrows != exp:
-        return "rows are not scored by exactly one fold model each"
-    owner = {g: f for f, rows in enumerate(scored) for g in rows}
-    # spectrum identity: full key of the row's own file
-    spec = {}
-    for j, f in enumerate(c["files"]):
-        cols = [x for x in ("filename", "ScanNr", "ret_time", "ExpMass") if x in f["data"]]
-        for r in range(len(f["targets"])):
-            spec[_gid(j, r)] = (j,) + tuple(f["data"][x][r] for x in cols)
-    byspec = {}
-    for g, s in spec.items():
-        byspec.setdefault(s, set()).add(owner[g])
-    for s, fs in byspec.items():
-        if len(fs) > 1:
-            return f"PSMs of spectrum {s} fall into different folds {sorted(fs)}"
-    if o["train"] != ["ok"] * k:
-        return f"training sets are not (a sub-sample of) the other folds: {o['train']}"
+    msg = _oracle_ok(c, o, None, _spectra(c))
+    if msg:
+        return msg
+    if isinstance(o.get("rescore"), str):
+        return f"brew failed when given the models it had returned: {o['rescore']}"
     return None
 
 
 def finding_key(c, m, i):
-    if i is not None and i[0] == "err" and i[1] == "IndexError" and all("ExpMass" not in f["data"] and "filename" not in f["data"] for f in c["files"]):
-        return "split:one-column-spectrum-key"
+    if i is not None and i[0] == "err" and str(i[1]).startswith("KeyError") and any("fold" in f["data"] for f in c["files"]):
+        return KEY_FOLD_NAME
+    if i is not None and i[0] == "err" and i[1] == "IndexError" and all(_key_names(f) == ["ScanNr"] for f in c["files"]):
+        return KEY_ONECOL
     return None
+
+
+# ----------------------------------------------------------------------------- outside the case pipeline
+def _big_train_sets(n, k, cap, seed, small_n=7):
+    """make_train_sets beyond its block size of 5,000,000 rows (a local constant of the function): the training rows of every
+    fold must be exactly the complement of the held-out fold — or, with a cap, a duplicate-free subset of it of the planned
+    size.  Checked with numpy set operations (oracle only; the extracted model is quadratic).  small_n: rows of a second,
+    small file (0 = none)."""
+    import numpy as np
+    import importlib
+    mb = importlib.import_module("mokapot.brew")        # `import mokapot.brew as mb` would bind the function mokapot.brew
+    if not hasattr(mb, "make_train_sets"):
+        return None, "make_train_sets no longer exists: not exercised"
+    rng = np.random.default_rng(seed)
+    sizes = [n] + ([small_n] if small_n else [])
+    test_idx = []
+    for j, nj in enumerate(sizes):
+        perm = np.random.default_rng(seed + j).permutation(nj)
+        test_idx.append(np.split(perm, [(nj * i) // k for i in range(1, k)]))
+    out = list(mb.make_train_sets(test_idx=test_idx, subset_max_train=cap, data_size=sizes, rng=rng))
+    if len(out) != k:
+        return f"{len(out)} training sets for {k} folds", None
+    nfiles = len(sizes)
+    quotas = None
+    if cap is not None:
+        quotas = [cap // nfiles] * nfiles
+        quotas[-1] += cap - sum(quotas)
+    for f in range(k):
+        comps = [np.setdiff1d(np.arange(nj), test_idx[j][f]) for j, nj in enumerate(sizes)]
+        total = sum(len(c) for c in comps)
+        for j, nj in enumerate(sizes):
+            got = np.asarray(out[f][j], dtype=np.int64)
+            comp = comps[j]
+            quota = None
+            if quotas is not None and total > sum(quotas) and quotas[j] < total:
+                quota = quotas[j]
+            if len(np.unique(got)) != len(got):
+                return f"fold {f} file {j}: a training row occurs twice", None
+            if quota is None:
+                if not np.array_equal(np.sort(got), comp):
+                    extra = np.setdiff1d(got, comp)
+                    missing = np.setdiff1d(comp, got)
+                    return (f"fold {f} file {j} ({nj} rows): training rows are not the complement of the held-out fold "
+                            f"({len(extra)} held-out rows are in the training set e.g. {extra[:3].tolist()}, {len(missing)} rows of the other folds are missing e.g. {missing[:3].tolist()})"), None
+            else:
+                if len(got) != quota or len(np.setdiff1d(got, comp)) > 0:
+                    return f"fold {f} file {j}: capped training rows are not {quota} rows of the complement", None
+    return None, None
+
+
+def extra_checks(ctx):
+    failures = []
+    info = {"outcomes(model / implementation)": dict(_OUTCOMES), "exercised": dict(_SEEN)}
+    configs = [(5_000_001, 2, None, 7)]
+    if ctx.thorough:
+        configs += [(5_000_000, 2, None, 7), (10_000_001, 3, 4_000_000, 0)]
+    notes = []
+    for n, k, cap, small_n in configs:
+        msg, note = _big_train_sets(n, k, cap, ctx.seed % 1000, small_n)
+        if note:
+            notes.append(note)
+        if msg:
+            failures.append({"what": f"make_train_sets on a file of {n} rows ({k} folds, cap {cap}): {msg}",
+                             "failing_input": {"fn": "make_train_sets", "data_size": [n] + ([small_n] if small_n else []), "folds": k, "subset_max_train": cap,
+                                               "test_idx": "per file j: numpy default_rng(%d + j).permutation(size) cut into k equal parts" % (ctx.seed % 1000)}})
+    info["make_train_sets beyond its block size"] = notes or ["%d configurations, all exact" % len(configs)]
+    return failures, info
